@@ -17,6 +17,7 @@ What is regenerated (vocabulary of leaves: coq/theories/Impl/Dispatch.v):
                                   read_rle_bit_packed_hybrid(.., NumpyIO(<buf>..), itemsize=k)   DGeneric <item size of buf's allocation> k
                                   np.zeros(..) and no decoder call                      DZeros
   read_plain_boolean_gen  encoding.read_plain_boolean: count handed to read_bitpacked1, allocation of the output, returned slice
+  one_run_check         core._is_one_bitpacked_run: the condition on (run header, number of values)
   v1_delta_alloc        core.read_data_page: (item size of the np.empty handed to delta_binary_unpack, its longval argument)
 Anything outside these shapes: fail closed (exit status 2, source location on stderr); the check then falls back to
 the pinned text + the correspondence run on the real page readers and records `translator_fallback`.
@@ -326,7 +327,7 @@ def index_chains(fn):
 def is_view(s):
     """an array view of the page bytes as integers of bit_width bits: `'int%i' % bit_width`"""
     return any(isinstance(x, ast.BinOp) and isinstance(x.op, ast.Mod) and isinstance(x.left, ast.Constant)
-               and x.left.value == "int%i" and ast.unparse(x.right) == "bit_width" for x in ast.walk(s))
+               and x.left.value in ("int%i", "uint%i") and ast.unparse(x.right) == "bit_width" for x in ast.walk(s))
 
 
 def index_tree(chain_prefix, fname, allocs0):
@@ -428,6 +429,49 @@ def index_tree(chain_prefix, fname, allocs0):
     return block([chain], dict(allocs0), {}, 1)
 
 
+def one_run_check(fns, fname):
+    """core._is_one_bitpacked_run(io_obj, nval): header = read_unsigned_var_int(io_obj); if <cond(header, nval)>: return header;
+    io_obj.seek(start); return 0   ->  the condition as a Gallina bool over (header, nval)"""
+    fn = fns.get("_is_one_bitpacked_run")
+    if fn is None:
+        raise Unsupported("%s: function _is_one_bitpacked_run not found" % fname)
+    if [a.arg for a in fn.args.args] != ["io_obj", "nval"]:
+        fail(fn, "_is_one_bitpacked_run parameters changed", fname)
+    body = [s for s in fn.body if not is_doc(s)]
+    shape = [ast.unparse(s).split("\n")[0] for s in body]
+    if len(body) != 5 or shape[0] != "start = io_obj.tell()" or shape[1] != "header = encoding.read_unsigned_var_int(io_obj)" \
+            or not isinstance(body[2], ast.If) or ast.unparse(body[2].body[0]) != "return header" or len(body[2].body) != 1 or body[2].orelse \
+            or shape[3] != "io_obj.seek(start)" or shape[4] != "return 0":
+        fail(fn, "_is_one_bitpacked_run has another shape than: read header / if cond: return header / seek back / return 0", fname)
+
+    def n(e):
+        if isinstance(e, ast.Constant) and isinstance(e.value, int) and e.value >= 0:
+            return str(e.value)
+        if isinstance(e, ast.Name) and e.id in ("header", "nval"):
+            return e.id
+        ops = {ast.RShift: "N.shiftr", ast.LShift: "N.shiftl", ast.Mult: "N.mul", ast.Add: "N.add", ast.BitAnd: "N.land", ast.FloorDiv: "N.div",
+               ast.Mod: "N.modulo"}
+        if isinstance(e, ast.BinOp) and type(e.op) in ops:
+            return "(%s %s %s)" % (ops[type(e.op)], n(e.left), n(e.right))
+        fail(e, "unsupported arithmetic %s" % ast.unparse(e)[:50], fname)
+
+    def b(e):
+        if isinstance(e, ast.BoolOp):
+            return "(" + (" && " if isinstance(e.op, ast.And) else " || ").join(b(v) for v in e.values) + ")"
+        if isinstance(e, ast.Compare) and len(e.ops) == 1:
+            tab = {ast.Eq: "(%s =? %s)", ast.NotEq: "negb (%s =? %s)", ast.Lt: "(%s <? %s)", ast.LtE: "(%s <=? %s)"}
+            l, r, op = e.left, e.comparators[0], e.ops[0]
+            if isinstance(op, (ast.Gt, ast.GtE)):
+                l, r = r, l
+                op = ast.Lt() if isinstance(op, ast.Gt) else ast.LtE()
+            if type(op) in tab:
+                return tab[type(op)] % (n(l), n(r))
+        if isinstance(e, (ast.BinOp, ast.Name)):
+            return "negb (%s =? 0)" % n(e)          # truthiness of an integer
+        fail(e, "unsupported condition %s" % ast.unparse(e)[:50], fname)
+    return b(body[2].test)
+
+
 def delta_alloc(fn, fname):
     cs = calls(fn, "delta_binary_unpack")
     if len(cs) != 1:
@@ -479,6 +523,7 @@ def translate(enc_src, core_src, enc_name="encoding.py", core_name="core.py"):
             out_alloc = {"out": (ast.unparse(n.value.func)[3:], dtype_size(kw["dtype"], core_name))}
     v2d = index_tree(c2[1], core_name, out_alloc)
     da = delta_alloc(fns["read_data_page"], core_name)
+    orc = one_run_check(fns, core_name)
     out = []
     out.append("(* generated by translators/dispatch2coq.py from fastparquet/encoding.py and fastparquet/core.py - do not edit *)")
     out.append("From Coq Require Import NArith List Bool.")
@@ -491,6 +536,8 @@ def translate(enc_src, core_src, enc_name="encoding.py", core_name="core.py"):
     out.append("Definition v2_cat_dispatch (nonempty : bool) (bit_width : N) (selfmade one_run : bool) : idec :=\n%s.\n" % v2c)
     out.append("Definition v2_deref_dispatch (nonempty : bool) (bit_width : N) (selfmade one_run : bool) : idec :=\n%s.\n" % v2d)
     out.append("Definition v1_delta_alloc (type_ : N) : N * bool := %s.\n" % da)
+    out.append("(* core._is_one_bitpacked_run: when does the run header at the cursor count as THE one bit-packed run holding nval values *)")
+    out.append("Definition one_run_check (header nval : N) : bool := %s.\n" % orc)
     return "\n".join(out)
 
 
